@@ -4,13 +4,13 @@
 EXTENDS IODataObj
 VARIABLE last
 gvars == <<vars, last>>
-gAtn == { <<1>>, <<1,8>>, <<6,1>>, <<8>> }
+gAtn == { <<1>>, <<1,8>>, <<6,1>>, <<8>>, <<>> }
 gCore == { <<4>>, <<2>>, <<0,32>>, <<4,23>> }
 gQ == { -4, 2, 4, 0 }
 gNe == { 0, 6, 36, 40 }
 gSp == { 4, 0, 8 }
 gMo == { [n |-> <<>>, s |-> <<>>], [n |-> <<12>>, s |-> <<4>>] }
-gLen == {1, 2}
+gLen == {0, 1, 2}
 L(op, a, v) == last' = [op |-> op, a |-> a, v |-> v]
 GInit == Init /\ last = [op |-> "Init", a |-> "", v |-> <<>>]
 GNext == \/ \E v \in Opt(AtnVals) : SetAtn(v) /\ L("SetAtn", "", v)
